@@ -195,6 +195,7 @@ def _check_case(acc, mujoco, wp, mjw, derivative, mjm, mjd, integ, xml, fluid):
   if not np.allclose(dv, dv_fd, rtol=3e-2, atol=3e-3 * scale):
     if mirrored(3e-2, 3e-3 * scale):
       acc.hit("observed: implicit step uses the mirrored lower triangle of the nonsymmetric fluid derivative")
+      _mirror_finding(acc, dv, dv_fd, replay)
     else:
       acc.find(f"{integ} step differs from a dense solve with the finite-difference velocity Jacobian of passive+actuator{'-bias' if integ == 'implicit' else ''} forces (max |d dv| {np.abs(dv - dv_fd).max():.3g})",
                "derivative.deriv_smooth_vel" if integ == "implicitfast" else "forward.implicit / derivative.deriv_rne_vel", "vs-finite-difference", **replay)
@@ -202,9 +203,20 @@ def _check_case(acc, mujoco, wp, mjw, derivative, mjm, mjd, integ, xml, fluid):
   if not np.allclose(qv, ref.qvel, rtol=2e-3, atol=2e-3 * (1 + np.abs(ref.qvel).max())):
     if mirrored(2e-3, 2e-3 * (1 + np.abs(ref.qvel).max())):
       acc.hit("observed: implicit step uses the mirrored lower triangle of the nonsymmetric fluid derivative")
+      _mirror_finding(acc, qv, ref.qvel, replay)
     else:
       acc.find(f"{integ} step differs from mj_step (max |d qvel| {np.abs(qv - ref.qvel).max():.3g})", "derivative.deriv_smooth_vel", "vs-mujoco", **replay)
   return m
+
+
+def _mirror_finding(acc, got, want, replay):
+  """recorded deviation (known_findings C27-implicit-fluid-symmetrised), reported when OBSERVED, once per run"""
+  if acc.__dict__.setdefault("_mirror_reported", False):
+    return
+  acc.__dict__["_mirror_reported"] = True
+  acc.find(f"full implicit integrator with the ellipsoid fluid model: the step equals a dense solve with the LOWER triangle of d(passive)/d(qvel) mirrored into the upper one "
+           f"(max |d| to the true/MuJoCo result {np.abs(np.asarray(got) - np.asarray(want)).max():.3g}); MuJoCo keeps the nonsymmetric derivative",
+           "forward.implicit (_map_m2d of the M-structure qDeriv)", "implicit-fluid-derivative-symmetrised", **replay)
 
 
 def _run(ctx, ncases, rec):
